@@ -869,6 +869,9 @@ pub fn run(ctx: Ctx) -> ! {
         ctx.note(format!("wall cap {cap_s}s hit; layers fully covered: {complete:?}"));
     }
     let nontrivial = failed_commits.load(Ordering::Relaxed) + rejected.load(Ordering::Relaxed);
+    if nontrivial == 0 {
+        mc_core::machinery_error("C02: the wall cap was hit before any faulted run was judged (overloaded machine?): nothing to report");
+    }
     let exhaustive = !capped && engine_skipped.load(Ordering::Relaxed) == 0;
     ctx.finish(
         Level::FaultEnumeration,
